@@ -166,7 +166,7 @@ def gen_tree(rng, depth, names):
     w = rng.random()
     if w < 0.2:
         r = ['comment', r, rng.choice(['note', 'two words', 'a b c d e f g'])]
-    elif w < 0.4 and r[0] in ('node', 'dnode', 'list', 'tuple', 'dict'):
+    elif w < 0.4 and r[0] in ('node', 'dnode', 'pnode', 'list', 'tuple', 'dict'):
         r = ['tcomment', r, rng.choice(['trailing', 'trailing note here'])]
     elif w < 0.45 and r[0] in ('node', 'dnode', 'list'):
         r = ['comment', ['tcomment', r, 'tr'], 'lead']
@@ -211,16 +211,45 @@ def node_has_tcomment(r, name, under=False):
     return False
 
 
+def recipe_kinds(r, names, out=None):
+    """kinds of the named nodes"""
+    if out is None:
+        out = set()
+    k = r[0]
+    if k in ('comment', 'tcomment'):
+        recipe_kinds(r[1], names, out)
+    elif k in ('node', 'dnode', 'pnode'):
+        if r[1] in names:
+            out.add(k)
+        for c in r[2]:
+            recipe_kinds(c, names, out)
+    elif k in ('list', 'tuple'):
+        for c in r[1]:
+            recipe_kinds(c, names, out)
+    elif k == 'dict':
+        for a, b in r[1]:
+            recipe_kinds(a, names, out)
+            recipe_kinds(b, names, out)
+    return out
+
+
 def root_name(r):
     while r[0] in ('comment', 'tcomment'):
         r = r[1]
     return r[1] if r[0] in ('node', 'dnode', 'pnode') else None
 
 
+def significant(ws):
+    """the package warns that a printer without a trailing_comment parameter will not show the comment: expected, not judged"""
+    return [w for w in ws if 'does not support rendering trailing comments' not in w[1]]
+
+
 def inject(sh, recipe, names, failing, excname, point, cfg, baseline):
     case = {'tree': recipe, 'failing': failing, 'exception': excname, 'point': point, 'cfg': cfg}
     tc = any(node_has_tcomment(recipe, n) for n in failing)
     suffix = '-under-trailing-comment' if tc and excname != 'TypeError' else ''
+    if tc and any(c in recipe_kinds(recipe, failing) for c in ('pnode',)):
+        suffix = '-printer-without-trailing-comment-parameter'
     reg = {}
     tree = build(recipe, reg)
     reg2 = {}
@@ -233,6 +262,7 @@ def inject(sh, recipe, names, failing, excname, point, cfg, baseline):
     c13.TR.budget = 10 ** 7
     try:
         text, ws = M.pp(tree, **cfg)
+        ws = significant(ws)
     except M.MonitorAbort as e:
         sh.violation('monitor-abort', str(e), case)
         return
@@ -270,6 +300,7 @@ def inject(sh, recipe, names, failing, excname, point, cfg, baseline):
         sh.violation('visited-trace-after-fault', msg, case)
         return
     after, aws = M.pp(build(recipe, {}), **cfg)
+    aws = significant(aws)
     if after != baseline or aws:
         sh.violation('later-call-affected', 'fault-free print after the failure differs from the one before: %r vs %r' % (after[:300], baseline[:300]), case)
         return
@@ -313,6 +344,7 @@ def invalid_returns(sh, recipe, names, cfg, baseline=None):
             # an earlier failure must not affect later calls: the same tree, fault-free, prints as before
             after, aws = M.pp(build(recipe, {}), **cfg)
             again, aws2 = M.pp(tree, **cfg)
+            aws, aws2 = significant(aws), significant(aws2)
             if after != baseline or again != baseline or aws or aws2:
                 sh.violation('later-call-affected-after-invalid-return', 'fault-free print after an invalid return differs: %r vs %r' % (again[:300], baseline[:300]), case)
                 continue
@@ -345,6 +377,7 @@ def run_tree(sh, i, quick):
     cfg = rng.choice([{}, {'width': 30}, {'width': 10, 'indent': 2}, {'width': 120, 'ribbon_width': 100}])
     FAULTS.plan = {}
     baseline, bws = M.pp(build(recipe, {}), **cfg)
+    bws = significant(bws)
     if bws:
         sh.violation('baseline-warning', bws[0][1][:300], {'tree': recipe, 'cfg': cfg})
         return
